@@ -198,6 +198,20 @@ class Driver:
                 info[k] = v
         return info
 
+    def pjob(self, mode, context, fmt, vocab_path, model_path, prefix):
+        line = "pjob %s %d %s %s %s %s\n" % (mode, 1 if context else 0, fmt, vocab_path, model_path, prefix)
+        self.p.stdin.write(line.encode())
+        self.p.stdin.flush()
+        ans = self.p.stdout.readline().decode("utf-8", "replace").strip()
+        info = {"raw": ans}
+        parts = ans.split()
+        info["head"] = parts[0] if parts else "dead"
+        for kv in parts[1:]:
+            if "=" in kv:
+                k, v = kv.split("=", 1)
+                info[k] = v
+        return info
+
     def files(self, prefix, kind, n):
         out = {}
         for k in range(n):
@@ -290,3 +304,339 @@ def parse_query(out):
                     toks.append((f[1], f[2]))
         res.append(toks)
     return res
+
+
+# ------------------------------------------------------------------------- phrase mode
+PH_ALPHA = [b"a", b"b", b"c", b"d", b"y", b"z"]
+
+
+def parse_phrase_file(data):
+    """lm/filter/phrase.cc ReadMultiple, written as the same character loop (independent of the
+    Lean model): returns list of sentences, each a list of phrases (tuples of words)."""
+    sents, cur_sent, phrase, word = [], [], [], b""
+    i, n = 0, len(data)
+    while True:
+        if i < n:
+            c = data[i:i + 1]
+            i += 1
+            eof = False
+        else:
+            c, eof = b"\n", True
+        if c not in b" \t\n\v\f\r":
+            word += c
+            continue
+        if word:
+            phrase.append(word)
+            word = b""
+        if c == b" ":
+            continue
+        if phrase:
+            cur_sent.append(tuple(phrase))
+            phrase = []
+        if c in b"\t\v":
+            continue
+        if cur_sent:
+            sents.append(cur_sent)
+            cur_sent = []
+        if eof:
+            break
+    return sents
+
+
+def is_tag(w):
+    return len(w) >= 1 and w[:1] == b"<" and w[-1:] == b">"
+
+
+def phrase_words(ws):
+    ws = list(ws)
+    if ws and is_tag(ws[0]):
+        ws = ws[1:]
+    out = []
+    for w in ws:
+        if w == b"</s>":
+            break
+        out.append(w)
+    return tuple(out)
+
+
+def py_tiles(phrases, g):
+    """DP formulation of Tiles for one sentence (g non-empty tuple of words)."""
+    n = len(g)
+    for p in phrases:
+        for i in range(len(p) - n + 1):
+            if p[i:i + n] == g:
+                return True
+    reach = [False] * (n + 1)
+    for j in range(n - 1, 0, -1):
+        r = g[j:]
+        ok = any(p[:len(r)] == r for p in phrases)
+        if not ok:
+            for p in phrases:
+                if j + len(p) < n and g[j:j + len(p)] == p and reach[j + len(p)]:
+                    ok = True
+                    break
+        reach[j] = ok
+    for i in range(1, n):
+        if reach[i] and any(len(p) >= i and p[len(p) - i:] == g[:i] for p in phrases):
+            return True
+    return False
+
+
+def brute_tiles(phrases, g):
+    """literally 'can be read off a concatenation of phrases': enumerate concatenations"""
+    n = len(g)
+    phrases = [p for p in phrases if p]
+    seqs = [()]
+    for _ in range(n + 1):
+        nxt = []
+        for s in seqs:
+            for p in phrases:
+                nxt.append(s + p)
+        for c in nxt:
+            for i in range(len(c) - n + 1):
+                if c[i:i + n] == g:
+                    return True
+        seqs = [c for c in nxt if len(c) <= 3 * n + 6][:4000]
+    return False
+
+
+def ngram_of_line(line, fmt):
+    f = line.split(b"\t")
+    return f[1] if fmt == "arpa" else f[0]
+
+
+def context_of(g):
+    i = g.rfind(b" ", 1)
+    return g[:i] if i > 0 else b""
+
+
+def py_must(sents, line, fmt, context):
+    """set of sentence ids that must keep the line, or 'all'"""
+    g = ngram_of_line(line, fmt)
+    if context:
+        g = context_of(g)
+    ws = phrase_words([w for w in g.split(b" ") if w])
+    if not ws:
+        return "all"
+    return [s for s, ph in enumerate(sents) if py_tiles(ph, ws)]
+
+
+def gen_phrase_file(rng, messy=True):
+    nsent = rng.choice([1, 2, 3, 4, 6, 7])
+    lines = []
+    for _ in range(nsent):
+        nph = rng.choice([1, 1, 2, 2, 3, 4])
+        phs = []
+        for _ in range(nph):
+            k = rng.choice([1, 1, 1, 2, 2, 3])
+            phs.append(b" ".join(rng.choice(PH_ALPHA[:5]) for _ in range(k)))
+        sep = b"\t"
+        ln = sep.join(phs)
+        if messy and rng.random() < 0.15:
+            ln = ln.replace(b"\t", b"\v", 1)
+        if messy and rng.random() < 0.15:
+            ln = b" " + ln.replace(b" ", b"  ", 1) + b" "
+        lines.append(ln)
+        if messy and rng.random() < 0.15:
+            lines.append(rng.choice([b"", b" ", b"\t"]))
+    data = b"\n".join(lines)
+    if rng.random() < 0.85:
+        data += b"\n"
+    return data
+
+
+SEEDED_PHRASES = b"b\nc\td\nz\na\tb c\td\nz\ty\na\tb\n"
+
+
+def gen_phrase_ngrams(rng, sents, n_per_order, max_order):
+    """per order a list of n-grams (bytes): many are read off concatenations of one sentence's phrases"""
+    orders = [[] for _ in range(max_order)]
+    for o in range(max_order):
+        for _ in range(n_per_order[o]):
+            r = rng.random()
+            ws = None
+            if sents and r < 0.65:
+                ph = rng.choice(sents)
+                cat = []
+                for _ in range(rng.randrange(1, 5)):
+                    cat += list(rng.choice(ph))
+                if len(cat) >= o + 1:
+                    st = rng.randrange(0, len(cat) - o)
+                    ws = cat[st:st + o + 1]
+            if ws is None:
+                ws = [rng.choice(PH_ALPHA) for _ in range(o + 1)]
+            if o >= 1 and rng.random() < 0.12:
+                ws[0] = b"<s>"
+            if o >= 1 and rng.random() < 0.12:
+                ws[-1] = b"</s>"
+            if o >= 2 and rng.random() < 0.04:
+                ws[1] = b"<unk>"
+            orders[o].append(b" ".join(ws))
+    return orders
+
+
+def arpa_from_ngrams(rng, orders):
+    out = [b"\\data\\\n"] + [b"ngram %d=%d\n" % (i + 1, len(o)) for i, o in enumerate(orders)] + [b"\n"]
+    lines = []
+    for i, o in enumerate(orders):
+        out.append(b"\\%d-grams:\n" % (i + 1))
+        sec = []
+        for g in o:
+            ln = b"-%d.%03d\t%s" % (rng.randrange(0, 5), rng.randrange(0, 1000), g)
+            if i + 1 < len(orders):
+                ln += b"\t-0.%d" % rng.randrange(1, 9)
+            sec.append(ln)
+            out.append(ln + b"\n")
+        lines.append(sec)
+        out.append(b"\n")
+    out.append(b"\\end\\\n")
+    return b"".join(out), lines
+
+
+def raw_from_ngrams(rng, orders):
+    lines = []
+    for o in orders:
+        for g in o:
+            lines.append(g + b"\t%d" % rng.randrange(1, 99))
+    rng.shuffle(lines)
+    return b"".join(l + b"\n" for l in lines), [lines]
+
+
+def parse_arpa_out(data):
+    """(header counts, sections) of an ARPA file written by the filter; None if malformed"""
+    lines = data.split(b"\n")
+    i = 0
+    while i < len(lines) and lines[i] == b"":
+        i += 1
+    if i >= len(lines) or lines[i] != b"\\data\\":
+        return None
+    i += 1
+    counts = []
+    while i < len(lines) and lines[i].startswith(b"ngram "):
+        counts.append(int(lines[i].split(b"=")[1]))
+        i += 1
+    sections = []
+    while True:
+        while i < len(lines) and lines[i] == b"":
+            i += 1
+        if i >= len(lines):
+            return None
+        if lines[i] == b"\\end\\":
+            break
+        if not (lines[i].startswith(b"\\") and lines[i].endswith(b"-grams:")):
+            return None
+        i += 1
+        sec = []
+        while i < len(lines) and lines[i] != b"":
+            sec.append(lines[i])
+            i += 1
+        sections.append(sec)
+    if any(l != b"" for l in lines[i + 1:]):
+        return None
+    return counts, sections
+
+
+def is_subseq(small, big):
+    it = iter(big)
+    return all(any(x == y for y in it) for x in small)
+
+
+def check_phrase_output(tool_bytes, must_bytes, fmt, in_sections):
+    """tool output vs the lower bound and the input.  Returns None or a description."""
+    if fmt == "arpa":
+        t = parse_arpa_out(tool_bytes)
+        m = parse_arpa_out(must_bytes)
+        if t is None:
+            return "tool output is not a well-formed ARPA file"
+        if m is None:
+            return "driver output malformed"
+        tc, ts = t
+        mc, ms = m
+        if len(ts) != len(in_sections) or len(ms) != len(in_sections):
+            return "number of sections differs from the input"
+        if tc != [len(s) for s in ts]:
+            return "header counts %s do not count the lines written %s" % (tc, [len(s) for s in ts])
+    else:
+        ts = [tool_bytes.split(b"\n")[:-1]] if tool_bytes else [[]]
+        ms = [must_bytes.split(b"\n")[:-1]] if must_bytes else [[]]
+        if tool_bytes and not tool_bytes.endswith(b"\n"):
+            return "raw output does not end with a newline"
+    for o, (tsec, msec, isec) in enumerate(zip(ts, ms, in_sections)):
+        if not is_subseq(tsec, isec):
+            return "order %d: output lines are not a sublist of the input lines" % (o + 1)
+        if not is_subseq(msec, tsec):
+            missing = [l for l in msec if l not in tsec]
+            return "order %d: derivable n-gram line(s) dropped: %r" % (o + 1, missing[:3])
+    return None
+
+
+def gen_phrase_case(rng, tier):
+    """a phrase-mode case: dict(mode, context, fmt, vocab, model, in_sections, sents, phrase=True)"""
+    r = rng.random()
+    if r < 0.2:
+        vocab = SEEDED_PHRASES
+    elif r < 0.3:
+        vocab = SEEDED_PHRASES + gen_phrase_file(rng)
+    else:
+        vocab = gen_phrase_file(rng)
+    sents = parse_phrase_file(vocab)
+    max_order = rng.choice([3, 4, 4, 5])
+    cap = 14 if tier == "quick" else 40
+    counts = [rng.randrange(1, cap) for _ in range(max_order)]
+    orders = gen_phrase_ngrams(rng, sents, counts, max_order)
+    if vocab.startswith(SEEDED_PHRASES) and max_order >= 4:
+        orders[3].insert(rng.randrange(len(orders[3]) + 1), b"a b c d")
+        orders[2].insert(rng.randrange(len(orders[2]) + 1), b"a b c")
+    fmt = rng.choice(["arpa", "arpa", "raw"])
+    if fmt == "arpa":
+        model, in_sections = arpa_from_ngrams(rng, orders)
+    else:
+        model, in_sections = raw_from_ngrams(rng, orders)
+    return dict(mode=rng.choice(["union", "multiple", "multiple"]), context=rng.random() < 0.25, fmt=fmt, vocab=vocab,
+                model=model, in_sections=in_sections, sents=sents, phrase=True, orders=in_sections)
+
+
+def expected_must_sections(case, k):
+    """the oracle's lower bound for output file k (union: k = 0), per input section"""
+    out = []
+    for sec in case["in_sections"]:
+        keep = []
+        for ln in sec:
+            m = py_must(case["sents"], ln, case["fmt"], case["context"])
+            if m == "all" or (case["mode"] == "union" and m) or (case["mode"] == "multiple" and k in m):
+                keep.append(ln)
+        out.append(keep)
+    return out
+
+
+def phrase_verdict(case, tool_files, drv, vp, mp, pfx):
+    """Check the tool's phrase-mode files against the Lean lower bound and the Python oracle.
+    Returns (None | description, kind) with kind in tool|machinery."""
+    info = drv.pjob(case["mode"], case["context"], case["fmt"], vp, mp, pfx)
+    if info["head"] != "ok":
+        return "driver rejects the input: " + info["raw"], "machinery"
+    nout = int(info["outputs"])
+    if nout != (1 if case["mode"] == "union" else len(case["sents"])):
+        return "sentence count differs between the Lean reader and the Python reader", "machinery"
+    must = drv.files(pfx, "must", nout)
+    names = [""] if case["mode"] == "union" else [str(k) for k in range(nout)]
+    if sorted(tool_files) != sorted(names):
+        return "output file set %s, expected %s" % (sorted(tool_files), sorted(names)), "tool"
+    for k, name in enumerate(names):
+        exp = expected_must_sections(case, k)
+        if case["fmt"] == "arpa":
+            pm = parse_arpa_out(must[k])
+            got = pm[1] if pm else None
+        else:
+            got = [must[k].split(b"\n")[:-1]] if must[k] else [[]]
+        if got != exp:
+            return "Lean Tiles and the Python oracle disagree on file %s" % name, "machinery"
+        d = check_phrase_output(tool_files[name], must[k], case["fmt"], case["in_sections"])
+        if d is not None:
+            return "file %r: %s" % (name, d), "tool"
+    # exact: the model of BuildGraph's graph (no hashing, no lazy search) predicts the files byte for byte
+    graph = drv.files(pfx, "graph", nout)
+    for k, name in enumerate(names):
+        if graph.get(k) != tool_files[name]:
+            return "file %r differs from the search-graph model (%d vs %d bytes)" % (name, len(tool_files[name]), len(graph.get(k, b""))), "graph"
+    return None, None
